@@ -1,4 +1,4 @@
-package f64
+package c128
 
 import (
 	"testing"
